@@ -1,7 +1,10 @@
 package vdb
 
 import (
+	"os"
+	"path/filepath"
 	"testing"
+	"time"
 
 	"github.com/NethermindEth/juno/verifh/lib"
 )
@@ -12,7 +15,22 @@ const ruleText = "sequential: case = generated call sequence (25-65 calls + wind
 	"concurrent: per backend 1 writer (direct writes, batches, helpers, aborted batches) + 3 readers (Get/Has/indexed-batch Get/snapshots/iterators), per-key porcupine register check + admissible-write check + whole-batch-or-nothing check of every snapshot/iterator view + db.SyncBatch shared by 3 goroutines; race binary runs the same. " +
 	"distinct = distinct call-kind sequences with at least one write and one compared read, plus concurrent histories in which readers saw >= 5 distinct values"
 
+// sweepStale removes scratch stores left behind by an earlier run of this check that was
+// killed or died with a runtime fatal error (housekeeping only; age-based so that a
+// concurrently running instance is not disturbed).
+func sweepStale() {
+	for _, base := range []string{"/dev/shm", os.TempDir()} {
+		dirs, _ := filepath.Glob(filepath.Join(base, "verif-c15-*"))
+		for _, d := range dirs {
+			if fi, err := os.Stat(d); err == nil && time.Since(fi.ModTime()) > 3*time.Hour {
+				os.RemoveAll(d)
+			}
+		}
+	}
+}
+
 func TestC15(t *testing.T) {
+	sweepStale()
 	r := lib.Start("C15", "exploration")
 	col := newCollector()
 	raceBuild = r.Race
